@@ -510,7 +510,7 @@ class Variable:
         return power(self, o)
 
     def __neg__(self):
-        return self._new(-self._a if not self.elem else _map1(lambda x: -x, self._a), var=self._v)
+        return self._new(_map1(lambda x: -x, self._a), var=None if self._v is None else self._v.copy())
 
     def __abs__(self):
         return unary(self, 'abs')
